@@ -423,6 +423,8 @@ class STypedInt(SInt):
 def construct(I, cls, args, kwargs):
     if cls in BUILTIN_TYPE_MODELS:
         return BUILTIN_TYPE_MODELS[cls](I, args, kwargs)
+    if cls is functools.partial:
+        return functools.partial(*args, **kwargs)  # a closure over engine values; calls are dispatched by the engine
     if isinstance(cls, enum.EnumMeta):
         if len(args) != 1 or kwargs:
             raise Unsupported("enum construction form")
